@@ -170,7 +170,7 @@ func TestReaderSpecs(t *testing.T) {
 			}
 		}
 	}
-	vk.Check(t, 100000, 3000000, func(rt *rapid.T, c *vk.Case) {
+	vk.Check(t, 100000, 2400000, func(rt *rapid.T, c *vk.Case) {
 		fi := rapid.IntRange(0, len(fs)-1).Draw(rt, "fixture")
 		si := rapid.IntRange(0, 1).Draw(rt, "snapshot")
 		f := fs[fi]
